@@ -254,8 +254,59 @@ func ruleAdvance(c *Ctx) {
 			}
 		}
 	}
-	c.Sites += n
+	// the log is append-only: on the commit path the counters of an existing file only move forward (field += d).
+	// A plain assignment (a rewind after a failed commit, a 'reset') lets the next, shorter transaction overwrite the
+	// head of what was written and leaves the tail behind its commit record - recovery scans whole records up to the
+	// first zero header, so the next Open fails on the stale bytes or replays them as committed data.
+	coneSet := map[*ssa.Function]bool{}
+	for _, f := range c.P.ModCone(commit) {
+		coneSet[f] = true
+	}
+	for _, f := range c.P.SrcFuncs { // closures declared inside cone functions (deferred resets) belong to the path too
+		if p := f.Parent(); p != nil && coneSet[p] {
+			coneSet[f] = true
+		}
+	}
+	m := 0
+	perFn := map[*ssa.Function]int{}
+	for _, field := range []string{"writeOff", "ActualSize"} {
+		for _, s := range sizeStores(c, field) {
+			if !coneSet[s.fn] || s.fn.Pkg != c.P.Main {
+				continue
+			}
+			fresh := false
+			if root, _ := splitPath(s.st.Addr.(*ssa.FieldAddr).X); root != nil {
+				switch r := root.(type) {
+				case *ssa.Extract:
+					if cl, ok := r.Tuple.(*ssa.Call); ok && calleeIs(&cl.Call, modPath, "", "NewDataFile") {
+						fresh = true
+					}
+				case *ssa.Alloc:
+					fresh = true
+				}
+			}
+			if fresh || isCtorOfDataFile(s.fn) {
+				continue
+			}
+			m++
+			perFn[s.fn]++
+			c.touch(s.fn)
+			c.check(advanceOf(s.st) != nil, fnName(s.fn), fmt.Sprintf("store #%d to %s of an existing file on the commit path only moves it forward", perFn[s.fn], field), c.P.ipos(s.st), "",
+				field+" of an existing data file is assigned (not advanced) on the commit path: the write position can move backwards over records that were already written; the next, shorter transaction overwrites only their head, the rest stays behind its commit record, and the next Open - which scans whole records up to the first zero header - fails on the stale bytes or replays them as committed data")
+		}
+	}
+	c.Sites += n + m
 	c.minInstances("advances of the active file's counters in the commit path", n, 2)
+}
+
+func isCtorOfDataFile(f *ssa.Function) bool {
+	res := f.Signature.Results()
+	for i := 0; i < res.Len(); i++ {
+		if n := namedOf(res.At(i).Type()); n != nil && n.Obj().Name() == "DataFile" {
+			return f.Signature.Recv() == nil
+		}
+	}
+	return false
 }
 
 // ---------------------------------------------------------------------------
